@@ -387,3 +387,4 @@ EXPLANATION += (' Round 6: ' + "WELLFORMED/resolution-positive: if the installed
 EXPLANATION += (' Round 7: ' + 'WELLFORMED/resolution-positive follows the helper that produces the decoded object and reads only the conditions on the resolution (divmod pairs and membership in literal tables are folded).')
 EXPLANATION += (' Rounds 9-10: ' + 'the escape engine models str.encode / bytes.decode (literal codec and handler; clean, possibly-surrogate and UTF-8 text types): a possibly-surrogate string stored into a string field raises UnicodeEncodeError; exception translation by a context-manager class is cannot-classify.')
 EXPLANATION += (' Round 12: ' + 'in-memory buffering of the file is file access (ESC/wrapper).')
+EXPLANATION += (' Round 13: ' + "block-wise reading (append, b''.join) is file access.")
